@@ -8,7 +8,7 @@ from .. import sql as S
 
 META = {
     'title': 'Word-form search follows the documented exact/normalized/lemmatized procedure',
-    'technique': 'sibling cross-check of the SQL form predicate in the three find_* queries; control-dependence shape of _find_helper; import-graph identity of the normaliser',
+    'technique': 'sibling cross-check of the SQL form predicate in the three find_* queries; effect summary of _find_helper (query rounds, their iterables and guards); import-graph identity of the normaliser',
     'explanation': (
         'Result sets of string matching are SQL semantics and are not decided. Decided: R1 sibling agreement - find_entries, '
         'find_senses and find_synsets implement the same form predicate: `(form IN wordforms [OR normalized_form IN wordforms]) '
